@@ -7,7 +7,7 @@ import (
 
 // files derives the file set from the description: page.vuego and one file per component.
 func files(c Case) map[string]string {
-	out := map[string]string{"page.vuego": emit(c.Page, c.Compact, c.Short)}
+	out := map[string]string{"page.vuego": emit(c.Page, c.Compact, c.Short) + emitHand(c)}
 	if len(c.Layout) > 0 {
 		out["layouts/base.vuego"] = emit(c.Layout, c.Compact, c.Short)
 	}
@@ -32,6 +32,22 @@ func files(c Case) map[string]string {
 		out[name] = b.String()
 	}
 	return out
+}
+
+// emitHand writes the page-level slot templates.
+func emitHand(c Case) string {
+	var b strings.Builder
+	w := &writer{b: &b, compact: c.Compact, short: c.Short}
+	for _, s := range c.Hand {
+		w.nl(0)
+		b.WriteString("<template " + supAttr(s) + ">")
+		w.nodes(s.Kids, 1)
+		if len(s.Kids) > 0 {
+			w.nl(0)
+		}
+		b.WriteString("</template>")
+	}
+	return b.String()
 }
 
 func emit(nodes []Node, compact, short bool) string {
@@ -189,7 +205,31 @@ func supAttr(s Supply) string {
 	case s.Var != "":
 		return fmt.Sprintf(`%s="%s"`, key, s.Var)
 	case len(s.Destr) > 0:
-		return fmt.Sprintf(`%s="{ %s }"`, key, strings.Join(s.Destr, ", "))
+		return fmt.Sprintf(`%s="%s"`, key, pattern(s.Destr, s.WS))
 	}
 	return key
+}
+
+// patternStyles is the number of layouts pattern knows.
+const patternStyles = 7
+
+// pattern writes a destructuring pattern. White space inside it is insignificant (the docs write
+// "{ item, index }"; templates are routinely reformatted over several lines), and a trailing comma
+// is accepted like in the JavaScript syntax the directive borrows.
+func pattern(names []string, ws int) string {
+	switch ws % patternStyles {
+	case 1:
+		return "{" + strings.Join(names, ",") + "}"
+	case 2:
+		return "{\t" + strings.Join(names, ",\t") + "\t}"
+	case 3:
+		return "{\n\t\t" + strings.Join(names, ",\n\t\t") + "\n\t}"
+	case 4:
+		return "{  " + strings.Join(names, " ,  ") + "  }"
+	case 5:
+		return "{ " + strings.Join(names, ", ") + ", }"
+	case 6:
+		return " { " + strings.Join(names, ", ") + " } "
+	}
+	return "{ " + strings.Join(names, ", ") + " }"
 }
